@@ -168,4 +168,33 @@ theorem cts_ecb_aligned_eq_raw (C : Cipher) (hC : C.Valid) (w : Nat) (blocks : L
 example : AllLen (Toy.cipher [1,2,3,4,5,6,7,8,9,10,11,12,13,14,15,16] 2).bs [[1, 2], [3, 4]] := by
   intro b hb; simp at hb; rcases hb with rfl | rfl <;> rfl
 
+/-! ### the consuming one-shot `StreamCipherCore::try_apply_keystream_partial` is one more front-end to the same keystream -/
+
+/-- **CTR core**, any flavour, any width, any byte length: when the call proceeds and the keystream has the blocks it needs,
+    the output is the data XORed with the documented keystream from the core's block position `j` — the same bytes the
+    byte-level cipher produces from offset `j·bs`. -/
+theorem ctr_partial_eq_keystream (C : Cipher) (hC : C.Valid) (hbs : C.bs < 256) (f : Flavor) (hw : f.w = 8 * f.cs)
+    (hcs : 0 < f.cs) (k : Nat) (hk : 0 < k) (iv : Bytes) (hiv : iv.length = k * f.cs) (hblk : C.bs = k * f.cs)
+    (w : Nat) (s : Ctr.St) (j : Nat) (hR : ctrRep f iv s j) (data : Bytes)
+    (hfit : j + (data.length + C.bs - 1) / C.bs < 2 ^ f.w) :
+    applyPartialUnchecked (Ctr.core C f) w s data
+      = xorB data (ksBytes (ksByte C.bs (ctrKs C f iv)) (j * C.bs) data.length) :=
+  applyPartial_spec (ctr_coreSpec C hC hbs f hw hcs k hk iv hiv hblk) w s j hR data (Or.inr hfit)
+
+/-- **BelT-CTR core**: the same. -/
+theorem belt_partial_eq_keystream (C : Cipher) (hC : C.Valid) (hbs : C.bs = 16) (iv : Bytes)
+    (w : Nat) (s : Belt.St) (j : Nat) (hR : beltRep C iv s j) (data : Bytes)
+    (hfit : j + (data.length + C.bs - 1) / C.bs < 2 ^ 128) :
+    applyPartialUnchecked (Belt.core C) w s data
+      = xorB data (ksBytes (ksByte C.bs (beltKs C iv)) (j * C.bs) data.length) :=
+  applyPartial_spec (belt_coreSpec C hC hbs iv) w s j hR data (Or.inr hfit)
+
+/-- **OFB core** (no keystream limit): the same, unconditionally. -/
+theorem ofb_partial_eq_keystream (C : Cipher) (hC : C.Valid) (hbs : C.bs < 256) (iv : Bytes) (hiv : iv.length = C.bs)
+    (w : Nat) (s : Bytes) (j : Nat) (hR : ofbRep C iv s j) (data : Bytes) :
+    applyPartialUnchecked (OfbCore.core C) w s data
+      = xorB data (ksBytes (ksByte C.bs (ofbKs C iv)) (j * C.bs) data.length) :=
+  applyPartial_spec (ofb_coreSpec C hC hbs iv hiv) w s j hR data (Or.inl rfl)
+
+
 end Thm.C14
